@@ -48,7 +48,7 @@ def run(chk: harness.Check):
         "space the builder will index (names, symbols, aliases and their declared SI expansions) and checks it is collision-free, that best "
         "lists name units of their own quantity and system, and that fraction entries name existing units; D4 compares the key paths used in "
         "units.toml with the string keys build.rs reads; D5-D7 pin the empty-best rejection, alias carry-over and remove→edit→add re-indexing order of the extend "
-        "machinery; D8: in finish the best lists and the fractions configuration are computed after apply_extend_groups, which follows SI expansion; D9: "
+        "machinery; D8: in finish the best lists and the fractions configuration are computed after apply_extend_groups, which follows SI expansion; D10: every join takes data and precedence from the same incoming layer and joins same-named fields; join_alias_vec / join_prefixes implement Before / After / Override as documented; D9: "
         "prefixed units are regenerated whole from the edited base unit (ratio = base.ratio * prefix.ratio()). Necessary conditions of 'consistent or rejected'; layer semantics are not decided.")
     chk.trusted = ["tables/panics.toml, narrow_arith.toml, progress.toml", "tomllib parse of units.toml", "synfacts extraction of build.rs string keys"]
     regions, entries = builder_regions(F)
@@ -63,6 +63,7 @@ def run(chk: harness.Check):
     d6_alias_carry_over(chk, F)
     d7_reindex_order(chk, F)
     d8_finish_order(chk, F)
+    d10_precedence(chk, F)
     import c09
     c09.d6_si_expansion(chk, F, "C16.D9-si-expansion")
     d3_shipped(chk)
@@ -225,6 +226,145 @@ def d8_finish_order(chk, F):
         chk.expect(b not in f.reach_from(a) and f.node_dominates(0, b), "C16.D8-finish-order", "finish|SI expansion first", f.where(b),
                    "units are SI-expanded after the extend groups were applied: extend entries cannot address or refresh the generated units",
                    sample=f"{f.where(b)}: SI expansion precedes apply_extend_groups")
+
+
+def _last_field(e):
+    """last `.field` projection on the way to the root of a place expression"""
+    while isinstance(e, tuple):
+        if e[0] == "place":
+            fl = [p for p in e[2] if p.startswith(".") and not p[1:].isdigit()]
+            if fl:
+                return fl[-1]
+            e = e[1]
+        elif e[0] in ("ref",):
+            e = e[1]
+        elif e[0] == "call" and e[2]:
+            e = e[2][0]
+        else:
+            return None
+    return None
+
+
+def _param_index(e):
+    """index (1-based MIR local) of the parameter an expression is rooted at, looking through refs / fields"""
+    while isinstance(e, tuple):
+        if e[0] == "param":
+            return e[1]
+        if e[0] in ("ref", "place"):
+            e = e[1]
+        else:
+            return None
+    return None
+
+
+def _same_layer_at_callers(F, f, prec, data, roots, depth):
+    from flow import resolve, show
+    ip, idt = _param_index(prec), _param_index(data)
+    if ip is None or idt is None or depth > 3:
+        return False
+    callers = [(g, t) for g, kind, b, t in F.callers_of(f.key) if kind == "call"]
+    if not callers:
+        return False
+    for g, t in callers:
+        if max(ip, idt) > len(t["args"]):
+            return False
+        p2, d2 = resolve(g, t["args"][ip - 1]), resolve(g, t["args"][idt - 1])
+        rp, rd = roots(p2), roots(d2)
+        ok = bool(rp) and "self" not in rp and rp <= rd and show(p2, -50).endswith(".precedence")
+        if not ok and not (bool(rp) and "self" not in rp and _same_layer_at_callers(F, g, p2, d2, roots, depth + 1)):
+            return False
+    return True
+
+
+def d10_precedence(chk, F):
+    """Later layers extend, precede or override earlier ones as THEIR precedence says.
+    (a) every join_prefixes / join_alias_vec call takes data and precedence from the same incoming layer (never the
+        precedence stored in self) and joins a field into the field of the same name;
+    (b) join_alias_vec: Before = src then target, After = target then src, Override = src only;
+    (c) join_prefixes: Before returns the incoming map extended with the stored one, After the stored one extended with
+        the incoming one, Override the incoming one."""
+    from flow import resolve, leaves, show
+    from cfgq import variant_arm_blocks
+    sites = []
+    for f in F.funcs.values():
+        if f.crate != "cooklang":
+            continue
+        for b, t in f.calls():
+            k = callee_key(t) or ""
+            if k.endswith("builder::join_prefixes") or k.endswith("builder::join_alias_vec"):
+                sites.append((f, b, t, k.rsplit("::", 1)[-1]))
+    chk.floor("C16.D10-precedence", "join call sites", len(sites), 5)
+    def roots(e):
+        return {l[6:].split(".")[0].split("as ")[0] for l in leaves(e) if l.startswith(("param:", "upvar:"))}
+    for f, b, t, name in sites:
+        tgt, data, prec = (resolve(f, a) for a in t["args"][:3])
+        rp, rd = roots(prec), roots(data)
+        ok = bool(rp) and "self" not in rp and rp <= rd and show(prec, -50).endswith(".precedence")
+        if not ok and bool(rp) and "self" not in rp:
+            # data and precedence are separate parameters of a helper: decide at the helper's call sites
+            ok = _same_layer_at_callers(F, f, prec, data, roots, 0)
+        key = f"{f.key.rsplit('::', 1)[-1]}|{name}|{_last_field(tgt)}"
+        chk.expect(ok, "C16.D10-precedence", key + "|source", f.where(b),
+                   f"the precedence passed to {name} must be the incoming layer's own (same origin as the joined data {sorted(rd)}); it is {show(prec, -50)[:100]}",
+                   sample=f"{f.where(b)}: precedence and data both from {sorted(rd)}")
+        ft, fd = _last_field(tgt), _last_field(data)
+        okf = ft is not None and fd == ft
+        chk.expect(okf, "C16.D10-precedence", key + "|field", f.where(b),
+                   f"{name} joins `{fd}` of the incoming layer into `{ft}`", sample=f"{f.where(b)}: {fd or 'entry value'} → {ft}")
+    # (b) join_alias_vec
+    g = next((x for x in F.find("convert::builder::join_alias_vec") if not x.is_closure()), None)
+    if g is None:
+        chk.fail("anchor-missing", "join_alias_vec", "", "anchor-missing: join_alias_vec not found")
+    else:
+        def arm_facts(v):
+            arms = variant_arm_blocks(g, "units_file::Precedence", v)
+            if len(arms) != 1:
+                return None
+            r = g.reach_from(arms[0][1])
+            apps = []
+            for x in sorted(r):
+                tt = g.blocks[x]["term"]
+                if tt["k"] == "call" and (callee_key(tt) or "").endswith(("Vec::<T, A>::append", "Vec::<T, A>::extend", "Extend<T>>::extend")):
+                    apps.append(tuple(sorted(roots(resolve(g, a)))[0] if roots(resolve(g, a)) else "?" for a in tt["args"][:2]))
+            sets = []
+            for i, j, st in g.iter_stmts():
+                if i in r and st["k"] == "assign" and st["place"]["p"] == ["*"] and g.local_name(st["place"]["l"]) == "target" and st["rv"]["k"] == "use":
+                    sets.append(sorted(roots(resolve(g, st["rv"]["op"]))))
+            return apps, sets
+        want = {"Before": ([("src", "target")], [["src"]]), "After": ([("target", "src")], []), "Override": ([], [["src"]])}
+        for v, w in want.items():
+            got = arm_facts(v)
+            chk.expect(got is not None and (got[0], got[1]) == w, "C16.D10-precedence", f"join_alias_vec|{v}", f"{g.file}:{g.line}",
+                       f"join_alias_vec under Precedence::{v} must do appends {w[0]} and target assignments {w[1]}; it does {got}",
+                       sample=f"{g.file}:{g.line}: {v}: append {w[0]}, *target = {w[1]}")
+    # (c) join_prefixes
+    g = next((x for x in F.find("convert::builder::join_prefixes") if not x.is_closure()), None)
+    if g is None:
+        chk.fail("anchor-missing", "join_prefixes", "", "anchor-missing: join_prefixes not found")
+        return
+    want = {"Before": "b", "After": "a", "Override": "b"}
+    for v, w in want.items():
+        arms = variant_arm_blocks(g, "units_file::Precedence", v)
+        got = None
+        if len(arms) == 1:
+            r = g.reach_from(arms[0][1])
+            for i, j, st in g.iter_stmts():
+                if i in r and st["k"] == "assign" and st["place"]["l"] == 0 and st["rv"].get("k") == "agg" and st["rv"].get("variant") == "Some":
+                    # first Some built in the arm
+                    got = sorted(roots(resolve(g, st["rv"]["ops"][0])))
+                    break
+            fe = [x for x in sorted(r) if g.blocks[x]["term"]["k"] == "call" and (callee_key(g.blocks[x]["term"]) or "").endswith("Iterator::for_each")]
+            if v == "Override":
+                okx = not fe
+            else:
+                other = "a" if w == "b" else "b"
+                okx = len(fe) == 1 and sorted(roots(resolve(g, g.blocks[fe[0]]["term"]["args"][0]))) == [other] and \
+                    sorted(roots(resolve(g, g.blocks[fe[0]]["term"]["args"][1]))) == [w]
+        else:
+            okx = False
+        chk.expect(got == [w] and okx, "C16.D10-precedence", f"join_prefixes|{v}", f"{g.file}:{g.line}",
+                   f"join_prefixes under Precedence::{v} must return the map derived from `{w}`" + ("" if v == "Override" else " after extending it with the other one")
+                   + f"; it returns one derived from {got}", sample=f"{g.file}:{g.line}: {v} → {w}")
 
 
 def recv_name(f, op):
